@@ -1571,6 +1571,71 @@ def gen_cases(ctx, tab: Table):
                 yield ci, k, obj, g
 
 
+def helper_clause(ctx, tab: Table):
+    """the helper methods of the containers that edit `Extension` are part of what is round-tripped: for every class with
+    get_retrievability / set_retrievability: a descriptor read from XML whose extension holds 0..3 msg:Retrievability
+    elements (adjacent, or interleaved with other extension elements); get = what was written; after set_retrievability(new)
+    get = new, the other extension elements are still there in their order; the same after write + read."""
+    from sdc11073.xml_types import msg_qnames as msgq
+    from sdc11073.xml_types import pm_types
+    methods = list(pm_types.RetrievabilityMethod)
+    for ci, cls in enumerate(tab.clist):
+        if not (hasattr(cls, 'set_retrievability') and hasattr(cls, 'get_retrievability')):
+            continue
+        for k in range(ctx.n(4, 12)):
+            rng = ctx.subrng('helper', ci, k)
+
+            def retr():
+                return pm_types.Retrievability([pm_types.RetrievabilityInfo(rng.choice(methods), rng.choice([None, 1.0, 2.5]))
+                                                for _ in range(rng.randint(1, 2))])
+            olds = [retr() for _ in range(k % 4)]
+            items = [('r', r) for r in olds] + [('x', n) for n in range(rng.randint(0, 2))]
+            if rng.random() < 0.5:
+                rng.shuffle(items)          # else: the Retrievability elements are adjacent
+            case = {'class': tab.keys[ci], 'helper': 'retrievability', 'sub': [ci, k], 'seed': ctx.seed,
+                    'layout': ''.join(t for t, _ in items)}
+            try:
+                d = Gen(tab, rng, max_depth=1).instance(cls)
+                ext = []
+                for t, v in items:
+                    if t == 'r':
+                        ext.append(v.as_etree_node(msgq.Retrievability, {}))
+                    else:
+                        el = etree.Element(etree.QName('urn:verif:ext', f'Other{v}'))
+                        el.text = str(v)
+                        ext.append(el)
+                d.Extension = xs.ExtensionLocalValue(ext)
+                doc = etree.fromstring(etree.tostring(serialize(d)))
+                d = parse_node(cls, doc)
+            except Exception:  # noqa: BLE001
+                ctx.count('helper:setup-failed')
+                continue
+            ctx.count('helper:retrievability-case')
+            ctx.case({'helper': tab.keys[ci], 'layout': case['layout'], 'k': k}, nontrivial=len(olds) >= 1)
+            others = [sh.canonical_xml(e) for e in d.Extension if e.tag != msgq.Retrievability]
+
+            def state(dd):
+                return [canon(r) for r in dd.get_retrievability()], [sh.canonical_xml(e) for e in dd.Extension if e.tag != msgq.Retrievability]
+            if state(d) != ([canon(v) for t, v in items if t == 'r'], others):
+                ctx.fail(f'helper:get_retrievability:{tab.keys[ci]}', f'{tab.keys[ci]}: get_retrievability after reading differs from what was '
+                         f'written (layout {case["layout"]})', case)
+                continue
+            new = retr()
+            try:
+                d.set_retrievability([new])
+                after = state(d)
+                back = parse_node(cls, etree.fromstring(etree.tostring(serialize(d))))
+                after_rt = state(back)
+            except Exception as ex:  # noqa: BLE001
+                ctx.fail(f'helper:set_retrievability-raises:{tab.keys[ci]}', f'{type(ex).__name__}: {ex}'[:200], case)
+                continue
+            want = ([canon(new)], others)
+            if after != want or after_rt != want:
+                ctx.fail(f'helper:set_retrievability:{tab.keys[ci]}', f'{tab.keys[ci]}: extension layout {case["layout"]} (r = Retrievability, x = other '
+                         f'element): after set_retrievability([new]) get_retrievability returns {len(after[0])} entries '
+                         f'({len(after_rt[0])} after write + read), other extension elements kept: {after[1] == others}', case)
+
+
 def typed_element_oracle(ctx, tab: Table, deviations=None):
     """where the XSD declares an element with complex type T, a document whose element carries content of T *without*
     xsi:type is schema valid and must be read completely: write an instance of the class that stands for T below the
@@ -1680,6 +1745,7 @@ def run(ctx):
     dev = xsd_compare(tab, xsdtable.XsdTable())
     typed_element_oracle(ctx, tab, dev)
     directed_documents(ctx, tab, dev)      # nothing to do while the table matches the XSD
+    helper_clause(ctx, tab)
     lines += enc.codec_lines()
     n_pre = len(lines)
     lines += [o[0] for o in ops]
@@ -1847,6 +1913,9 @@ def replay(ctx, obj):
     if 'absent_member' in case or 'malformed' in case:
         ops = []
         extra_cases(ctx, tab, Enc(tab), ops)
+    elif 'helper' in case:
+        helper_clause(ctx, tab)
+        ctx.failures = [f for f in ctx.failures if f['signature'] == obj.get('signature')]
     elif 'typed_element' in case:
         typed_element_oracle(ctx, tab)
     elif 'directed' in case:
